@@ -150,6 +150,8 @@ def build(tier, repo):
                             "persistent work matrices are fully redefined at each factorisation",
                   "only the lower triangle of P is read")
     factory_state_rule(r8, w)
+    from .C07 import exclusive_contribution_rule
+    exclusive_contribution_rule(r8, w)
     r8.require(6)
     r9 = chk.rule("C03-R9", "base.gemv (the G and A products of coneqp) with an empty inner dimension scales y by the caller's beta",
                   "residuals accumulate q + Px + G'z + A'y also when A is an explicit 0 x n matrix")
@@ -162,5 +164,6 @@ def build(tier, repo):
 
     r6 = chk.rule("C03-R6", "cone-space vectors normed with misc.snrm2/sdot", "documented relative norms")
     rc.norm_discipline(r6, w, "coneprog", "coneqp")
+    rc.cone_product_rule(r6, w, "coneprog", "coneqp")
     r6.require(4)
     return chk
